@@ -152,7 +152,7 @@ def wl_bloom_sweep(ctx, rng, case):
     else:
         n = rng.choice([rng.randint(1, 200), rng.randint(1, 10**5), rng.randint(1, 10**9), rng.choice(NS)])
         ps = [rng.choice(PS) for _ in range(20)] + [rng.uniform(1e-7, 0.72) for _ in range(20)] + [10 ** -rng.uniform(0.15, 30) for _ in range(20)]
-    case.desc = {"est_elements": n, "n_rates": len(ps), "kind": "bloom"}
+    case.desc = {"est_elements": n, "n_rates": len(ps), "kind": "bloom", "rates_digest": hash(tuple(round(float(x), 15) for x in ps)) & 0xFFFFFFFF}
     for p in ps:
         check_bloom(ctx, P, n, float(p), rng)
     if n <= 5000:
